@@ -133,7 +133,8 @@ func RunPlan(t *testing.T, p Prop, plan any) (out *Outcome) {
 	_, restore := SeedCrypto(planSeed(plan))
 	defer restore()
 	t0 := time.Now()
-	func() {
+	races0 := raceErrors()
+	body := func() {
 		defer func() {
 			if r := recover(); r != nil {
 				msg := fmt.Sprint(r)
@@ -151,14 +152,38 @@ func RunPlan(t *testing.T, p Prop, plan any) (out *Outcome) {
 			p.Exec(env, plan)
 			out.SimTimeS = time.Since(env.Start).Seconds()
 		})
-	}()
+	}
+	if RaceBuild {
+		// a bubble in which the detector reported a race fails its *testing.T
+		// and synctest.Test then ends the calling goroutine (FailNow); run it on
+		// a goroutine of its own so that the worker survives and records which
+		// plan raced
+		done := make(chan struct{})
+		go func() {
+			defer close(done)
+			body()
+		}()
+		<-done
+	} else {
+		body()
+	}
 	out.RealMS = float64(time.Since(t0).Microseconds()) / 1000
+	if n := raceErrors() - races0; n > 0 {
+		// the reports themselves are in the GORACE log of this process; the
+		// driver classifies them (library access pair or harness defect)
+		out.Violate(p.ID(), "race", "data-race", "the race detector made %d report(s) while this plan executed", n)
+	}
 	h := sha256.New()
 	for _, l := range env.log {
 		h.Write([]byte(l))
 		h.Write([]byte{'\n'})
 	}
 	for _, v := range out.Violations {
+		if v.Oracle == "race" {
+			// the detector reports an access pair once per process: a second
+			// execution of the same plan in this process stays silent
+			continue
+		}
 		h.Write([]byte(v.Key))
 	}
 	h.Write([]byte(out.Class))
@@ -347,6 +372,17 @@ func Worker(t *testing.T, id, tier string, seed uint64, shard, nshards int, budg
 				continue
 			}
 			seenKeys[v.Key] = true
+			if v.Oracle == "race" {
+				// the detector reports each access pair once per process, so the
+				// plan is neither minimised nor replayed here: the driver replays
+				// the file in a fresh process
+				name, err := writeReplay(p, tier, plan, v, o.LogHash, 0)
+				if err != nil {
+					t.Fatalf("writing replay: %v", err)
+				}
+				res.Violations = append(res.Violations, ViolationReport{Violation: v, Replay: name, Reproduced: true})
+				continue
+			}
 			min, mo, steps := Minimise(t, p, plan, v.Key, 200, time.Now().Add(60*time.Second))
 			mv := v
 			for _, x := range mo.Violations {
